@@ -51,6 +51,26 @@ Proof.
 Qed.
 Check verdict_rec_sound : forall C entries, verdict_rec C entries = None -> rbalanced C entries.
 
+(* A recursion call leaves scope, capture and escape state as it found them.  From ANY state [s] of a caller at a call
+   site: if the real machine enters a recursive loop there and later, for the first time, is back at the caller's frame
+   depth (configuration [d]; everything in between runs strictly above the caller's frames, nested recursion calls to
+   any depth included), then [d] is the summary successor of the call: the pc after the call site, the caller's
+   frames, captures and auto-escape entries exactly as they were, its operands with the argument replaced by the
+   call's value (pushed iff the call captures). *)
+Theorem rec_call_restores : forall C Am Ar entries, check_rec C Am Ar entries = true ->
+  forall pc s i cap k p u d,
+    nth_error C pc = Some i -> call_arg i s = Some (cap, k) -> In p (rec_targets C) ->
+    rstar_above C (length (frames s)) (S p, lift (with_stk s k) (reg_entry (S pc) cap)) u ->
+    rstep C u d -> length (frames (snd d)) <= length (frames s) ->
+    d = (S pc, lift (with_stk s k) (ret_rel cap)).
+Proof. exact rec_call_restores_proof. Qed.
+Check rec_call_restores : forall C Am Ar entries, check_rec C Am Ar entries = true ->
+  forall pc s i cap k p u d,
+    nth_error C pc = Some i -> call_arg i s = Some (cap, k) -> In p (rec_targets C) ->
+    rstar_above C (length (frames s)) (S p, lift (with_stk s k) (reg_entry (S pc) cap)) u ->
+    rstep C u d -> length (frames (snd d)) <= length (frames s) ->
+    d = (S pc, lift (with_stk s k) (ret_rel cap)).
+
 (* Non-vacuity and the known refutation: the stream codegen.rs emitted BEFORE the fix for
    `for{with{break}}` is rejected, the fixed stream is accepted. *)
 Definition before_fix : list instr :=
@@ -122,3 +142,4 @@ Print Assumptions check_ann_sound.
 Print Assumptions verdict_sound.
 Print Assumptions check_rec_sound.
 Print Assumptions verdict_rec_sound.
+Print Assumptions rec_call_restores.
